@@ -3,6 +3,7 @@
 # A Bad* function without a failing obligation is a soundness hole; an Ok* function with one is a
 # false alarm. Run after every engine change. Exit 0 only if all expectations hold.
 cd /verif
+export GVERIF_NORETRY=1   # failing obligations are expected here: no second-chance retries
 SAFETY_ONLY="BadIndex BadNilDeref BadNilMapWrite BadDivZero"
 fail=0
 for prop in ST C18; do
